@@ -76,8 +76,8 @@ type Spec struct {
 }
 
 func Label(pkg, name string) string { return "//" + pkg + ":" + name }
-func (t *Target) Label() string    { return Label(t.Pkg, t.Name) }
-func (a *Alias) Label() string     { return Label(a.Pkg, a.Name) }
+func (t *Target) Label() string     { return Label(t.Pkg, t.Name) }
+func (a *Alias) Label() string      { return Label(a.Pkg, a.Name) }
 
 func (t *Target) HasTag(tag string) bool {
 	for _, x := range t.Tags {
